@@ -156,6 +156,8 @@ def factories(L, S):
     fs["CDFt-noyears"] = (lambda: CDFt.from_variable("tas", running_window_mode_over_years_of_cm_future=False, **kw), False, "tas")
     fs["QuantileDeltaMapping-noyears"] = (lambda: QuantileDeltaMapping.from_variable("tas", running_window_mode_over_years_of_cm_future=False, **kw), False, "tas")
     fs["ISIMIP-months"] = (lambda: ISIMIP.from_variable("tas", running_window_mode=False), False, "tas")
+    fs["ISIMIP-trend"] = (lambda: ISIMIP.from_variable("tas", **kw), False, "tas-trend")
+    fs["ISIMIP-trend-months"] = (lambda: ISIMIP.from_variable("tas", running_window_mode=False), False, "tas-trend")
     fs["ISIMIP-pr-seeded"] = (lambda: ISIMIP.from_variable("pr", **kw), True, "pr")
     fs["ISIMIP-pr-months-seeded"] = (lambda: ISIMIP.from_variable("pr", running_window_mode=False), True, "pr")
     fs["ScaledDistributionMapping-pr"] = (lambda: ScaledDistributionMapping.from_variable("pr", **kw), False, "pr")
@@ -172,7 +174,7 @@ def factories(L, S):
 BASE8 = ["LinearScaling", "DeltaChange", "QuantileMapping", "ScaledDistributionMapping", "ECDFM", "CDFt", "QuantileDeltaMapping", "ISIMIP"]
 EXTRA = ["CDFt-years3/1", "QuantileDeltaMapping-years3/1", "CDFt-years17/9", "QuantileDeltaMapping-years17/9", "CDFt-years5/3",
          "QuantileDeltaMapping-years5/3", "CDFt-yearsonly3/1", "CDFt-yearsonly17/9", "CDFt-noyears", "QuantileDeltaMapping-noyears",
-         "ISIMIP-months", "ISIMIP-pr-seeded", "ISIMIP-pr-months-seeded",
+         "ISIMIP-months", "ISIMIP-trend", "ISIMIP-trend-months", "ISIMIP-pr-seeded", "ISIMIP-pr-months-seeded",
          "ScaledDistributionMapping-pr", "ScaledDistributionMapping-pr-windowfree", "QuantileMapping-nonparametric", "LinearScaling-windowfree",
          "QuantileMapping-windowfree", "ScaledDistributionMapping-windowfree", "ECDFM-windowfree"]
 
@@ -187,7 +189,7 @@ def gen_case(rng, name, tier):
     many_years = "years17/9" in name or "yearsonly17/9" in name
     if many_years:
         nyears = rng.choice([19, 23]) if tier == "quick" else rng.choice([19, 23, 30])
-    elif "years" in name:
+    elif "years" in name or "trend" in name:
         nyears = rng.choice([4, 6, 7])
     else:
         nyears = rng.choice([1, 2, 3])
@@ -195,8 +197,9 @@ def gen_case(rng, name, tier):
     nX = 365 * nyears + rng.randint(0, 60)
     if nyears == 1 and rng.random() < 0.3:
         nX = rng.randint(120, 364)
-    cal1 = {"start": [y0 - 30, 1, 1], "n": 365 * rng.choice([2, 3]) + rng.randint(1, 30)}
-    cal2 = {"start": [y0 - 12 - (y0 - 12) % 4 if rng.random() < 0.5 else y0 - 11, 1, 1], "n": 365 * rng.choice([2, 3, 4]) + rng.randint(1, 30)}
+    ncal = [5, 6] if "trend" in name else [2, 3, 4]
+    cal1 = {"start": [y0 - 30, 1, 1], "n": 365 * rng.choice(ncal[:2]) + rng.randint(1, 30)}
+    cal2 = {"start": [y0 - 12 - (y0 - 12) % 4 if rng.random() < 0.5 else y0 - 11, 1, 1], "n": 365 * rng.choice(ncal) + rng.randint(1, 30)}
     startX = datetime.date(y0, 1, 1) + datetime.timedelta(days=off)
     X = {"start": [startX.year, startX.month, startX.day], "n": nX}
     if name == "DeltaChange":
@@ -216,6 +219,9 @@ def build(case):
         o, h, f = pr_like(nprs, d["O"].size, 0.2), pr_like(nprs, d["H"].size, 0.45), pr_like(nprs, d["F"].size, 0.45)
     else:
         o, h, f = probes.tas_like(nprs, d["O"], 283, 3), probes.tas_like(nprs, d["H"], 285, 4), probes.tas_like(nprs, d["F"], 287, 4)
+        if data == "tas-trend":  # a significant trend in the annual means: ISIMIP's step 3 / step 7 are active
+            yr = lambda dd: np.array([x.year + x.timetuple().tm_yday / 366.0 for x in dd])  # noqa: E731
+            o, h, f = o + 0.8 * (yr(d["O"]) - yr(d["O"])[0]), h + 1.1 * (yr(d["H"]) - yr(d["H"])[0]), f + 1.5 * (yr(d["F"]) - yr(d["F"])[0])
     pO, pH, pF = (make_perm(nprs, x.size, k) for x, k in zip((o, h, f), case["perms"]))
     return mk, seeded, (o, h, f, d["O"], d["H"], d["F"]), (pO, pH, pF)
 
@@ -303,10 +309,22 @@ def _run(tier, res, force_search=False):
 
     lean_ok = C.lean_phase(res, PROP, GEN, TARGETS)
     problems, mismatches = [], []
+    if tier != "quick" and lean_ok:  # thorough: re-check the compiled declarations with the external kernel
+        import fcntl
+
+        mods = ["IbicusModel.Props.C06Inst", "IbicusModel.Props.C06", "IbicusModel.Lemmas.C06Stats", "IbicusModel.Lemmas.C06Rank",
+                "IbicusModel.Lemmas.C06Years", "IbicusModel.Lemmas.C06Except", "IbicusModel.Lemmas.C06Isimip"]
+        with open(C.LOCK, "w") as lk:
+            fcntl.flock(lk, fcntl.LOCK_SH)
+            rc, log = C._run(["lake", "env", "leanchecker"] + mods)
+        res.extra["leanchecker"] = "ok" if rc == 0 else f"rc={rc}: {log[-300:]}"
+        if rc != 0:
+            res.tie_broken.append("leanchecker rejects the property modules: " + log[-300:])
+            lean_ok = False
 
     # ---- tier B (1): skeletons, ordered and shuffled input, through the real apply_location
-    n_sk = 12 if tier == "quick" else 60
-    n_skp = 36 if tier == "quick" else 180
+    n_sk = 12 if tier == "quick" else 90
+    n_skp = 36 if tier == "quick" else 360
     lines, expect = probes.skeleton_cases(rng, n_sk, tier, res, problems)
     l2, e2 = skeleton_cases_permuted(rng, n_skp, tier, res, problems)
     lines += l2
@@ -325,8 +343,8 @@ def _run(tier, res, force_search=False):
     # ---- tier B (2): the layer-N window functions against the real per-window code
     from harness import debiasers_corr, isimip_corr
 
-    n_deb = 6 if tier == "quick" else 40
-    n_isi = 27 if tier == "quick" else 160
+    n_deb = 6 if tier == "quick" else 80
+    n_isi = 27 if tier == "quick" else 320
     try:
         mm = debiasers_corr.correspondence(rng, n_deb, tier, res, families=["LS", "DC", "QM", "ECDFM", "QDM", "SDMabs", "SDMrel", "CDFt"])
         if mm:
@@ -338,8 +356,8 @@ def _run(tier, res, force_search=False):
         res.tie_broken.append(f"layer-N correspondence could not run: {type(ex).__name__}: {str(ex)[:300]}")
 
     # ---- property oracle on the real code (small budget always; x3 when a tie is broken)
-    reps = 6 if tier == "quick" else 40
-    reps_extra = 3 if tier == "quick" else 16
+    reps = 6 if tier == "quick" else 80
+    reps_extra = 3 if tier == "quick" else 30
     if force_search or not lean_ok or res.tie_broken:
         reps *= 3
         reps_extra *= 3
